@@ -586,24 +586,19 @@ def _arctan2_1(y, x):
         k = len(ctx.aux)
         phi = z3.Real(f"atan2!{k}")
         rho = z3.Real(f"rho!{k}")
-        sin_f, cos_f = ctx.func("sin"), ctx.func("cos")
+        known = [val for kk, val in ctx.aux.items() if isinstance(kk, tuple) and kk and kk[0] == "trig"]
         ctx.keep.extend([yt, xt])
         PI_Q = sym_pi()
+        Sp, Cp = ctx.trig("sin", phi), ctx.trig("cos", phi)
         ctx.add_hyp(z3.And(phi > -PI_Q, phi <= PI_Q))
         ctx.add_hyp(z3.And(rho >= 0, rho * rho == xt * xt + yt * yt))
-        ctx.add_hyp(z3.And(rho * cos_f(phi) == xt, rho * sin_f(phi) == yt))
-        ctx.add_hyp(cos_f(phi) * cos_f(phi) + sin_f(phi) * sin_f(phi) == 1)
+        ctx.add_hyp(z3.And(rho * Cp == xt, rho * Sp == yt))
         ctx.add_hyp(z3.Implies(z3.And(xt == 0, yt == 0), phi == 0))
         # (cos a, sin a) = (cos b, sin b)  =>  a - b in 2 pi Z, for every trig argument b seen so far
-        for kk, val in list(ctx.aux.items()):
-            if isinstance(kk, tuple) and kk and kk[0] == "trig":
-                b = val if not isinstance(val, bool) else None
-                if b is None:
-                    continue
-                ctx.add_hyp(z3.Implies(z3.And(cos_f(phi) == cos_f(b), sin_f(phi) == sin_f(b), b > -4 * PI_Q, b < 4 * PI_Q),
-                                       z3.Or(*[phi - b == 2 * j * PI_Q for j in (-2, -1, 0, 1, 2)])))
+        for (b, Sb, Cb) in known:
+            ctx.add_hyp(z3.Implies(z3.And(Cp == Cb, Sp == Sb, b > -4 * PI_Q, b < 4 * PI_Q),
+                                   z3.Or(*[phi - b == 2 * j * PI_Q for j in (-2, -1, 0, 1, 2)])))
         ctx.aux[key] = (phi, rho)
-        ctx.aux[("trig", phi.get_id())] = phi
         got = (phi, rho)
     phi, rho = got
     r = Sym(phi)
